@@ -19,6 +19,7 @@
 
 #include <atomic>
 #include <mutex>
+#include <thread>
 
 using namespace verif;
 using namespace Pistache;
@@ -113,6 +114,83 @@ namespace
     }
 }
 
+namespace
+{
+    // While a history runs on its connection, a companion keeps two other keep-alive connections of the same endpoint
+    // busy (two, with client descriptors of different parity: connections go to worker `descriptor % workers`, so one
+    // of them is served by the other worker) with one valid request that carries typed headers - an HTTP date, cookies,
+    // a content type, Accept with qualities.  "The server keeps answering other connections", and what the handler
+    // parsed there must be what a fresh parser makes of the same bytes, whatever arrives elsewhere at that moment.
+    struct Companion
+    {
+        std::atomic<bool> stop { false };
+        std::thread th;
+        std::mutex m;
+        std::string error;
+        unsigned long answered = 0;
+
+        static const std::string& request()
+        {
+            // (below the smallest limit of the four endpoints, 256 bytes)
+            static const std::string r = "POST /cmp?a=1&b=two HTTP/1.1\r\nHost: h:8080\r\nDate: Sun, 06 Nov 1994 08:49:37 GMT\r\nCookie: sid=31415; t=d\r\n"
+                                         "Content-Type: application/json; q=0.5\r\nAccept: text/html;q=0.9, */*;q=0.1\r\nCache-Control: max-age=3600\r\nContent-Length: 5\r\n\r\nhello";
+            return r;
+        }
+        void start(uint16_t port, const std::string& want)
+        {
+            th = std::thread([this, port, want] {
+                int fds[2] = { -1, -1 };
+                int filler = -1;
+                fds[0]     = net::connect_loopback(port);
+                fds[1]     = net::connect_loopback(port);
+                if (fds[0] >= 0 && fds[1] >= 0 && (fds[0] % 2) == (fds[1] % 2))
+                {
+                    // same parity: burn one descriptor number and reconnect the second
+                    ::close(fds[1]);
+                    filler = ::dup(0);
+                    fds[1] = net::connect_loopback(port);
+                }
+                std::string carry[2];
+                for (unsigned i = 0; !stop && fds[0] >= 0 && fds[1] >= 0; ++i)
+                {
+                    int k = int(i % 2);
+                    net::Message r;
+                    std::string err;
+                    if (!net::send_all(fds[k], request()) || !net::read_message(fds[k], carry[k], true, r, 4000, err))
+                    {
+                        std::lock_guard<std::mutex> g(m);
+                        error = "not answered: " + (err.empty() ? std::string("send failed") : err);
+                        break;
+                    }
+                    if (r.status != 200 || r.body != want)
+                    {
+                        std::lock_guard<std::mutex> g(m);
+                        error = "answered " + std::to_string(r.status) + " \"" + printable(r.body, 80) + "\" instead of 200 \"" + want + "\"";
+                        break;
+                    }
+                    ++answered;
+                    if (i % 4 == 3)
+                        net::sleep_ms(1); // bursts of four, then a breath: it is company, not a load test
+                }
+                for (int fd : fds)
+                    if (fd >= 0)
+                        ::close(fd);
+                if (filler >= 0)
+                    ::close(filler);
+            });
+        }
+        std::string finish()
+        {
+            stop = true;
+            if (th.joinable())
+                th.join();
+            std::lock_guard<std::mutex> g(m);
+            return error;
+        }
+        ~Companion() { finish(); }
+    };
+}
+
 namespace verif
 {
     HarnessInfo harness_info() { return { "C01", 1200 }; }
@@ -185,6 +263,20 @@ namespace verif
 
         // ---- history of requests on one keep-alive connection ----------------------------------------
         unsigned n = unsigned(c.range(1, 5));
+        Companion companion;
+        {
+            static std::map<size_t, std::string> want_by_limit;
+            std::string& want = want_by_limit[limit];
+            if (want.empty())
+            {
+                Http::RequestParser ref(limit);
+                Outcome o = feed_and_parse(ref, Companion::request().data(), Companion::request().size());
+                V_CHECK(o.kind == Outcome::Done, P + "/harness-companion", "the companion's request does not parse: " + o.str());
+                want = hash_of(ref.request);
+            }
+            if (!Handler::throws_for(want))
+                companion.start(srv.port, want);
+        }
         int fd     = net::connect_loopback(srv.port);
         V_CHECK(fd >= 0, P + "/harness-connect", "connect failed");
         struct Closer
@@ -341,6 +433,23 @@ namespace verif
                 saw_408 = true;
                 ok      = net::read_message(fd, carry, true, r, 4000, err);
             }
+            if (!ok)
+            {
+                // what kind of silence is it?  still nothing after 3 more seconds / an answer that was merely late /
+                // an answer that only comes once something else is written to the connection
+                std::string e2, e3;
+                net::Message later;
+                bool late = net::read_message(fd, carry, true, later, 3000, e2);
+                bool poked = false;
+                if (!late)
+                {
+                    net::send_all(fd, "\r\n");
+                    poked = net::read_message(fd, carry, true, later, 2000, e3);
+                }
+                err += late ? " [an answer with status " + std::to_string(later.status) + " did arrive within 3 more seconds]"
+                    : poked ? " [nothing in 3 more seconds; an answer with status " + std::to_string(later.status) + " arrived after two more bytes were written to the connection]"
+                            : " [nothing in 3 more seconds, nothing after two more bytes either: " + e3 + "]";
+            }
             V_CHECK(ok, want.kind == Outcome::Done ? P + "/timing/no-response" : P + "/timing/no-error-response",
                     what + ": " + err + " (one-shot outcome: " + want.str().substr(0, 60) + ")");
             if (timed_pred && !saw_408)
@@ -384,6 +493,11 @@ namespace verif
         if (nontrivial)
             rep.nontrivial_case(fnv1a(desc, limit) ^ fnv1a(data, size));
         rep.sample("limit " + std::to_string(limit) + " history: " + desc);
+        {
+            std::string cerr_ = companion.finish();
+            rep.subchecks += companion.answered;
+            V_CHECK(cerr_.empty(), P + "/other-connection-disturbed", "while this history ran (" + desc + "), a valid request with typed headers repeated on two other connections of the endpoint was " + cerr_);
+        }
         return Verdict::pass();
     }
 }
